@@ -223,6 +223,7 @@ type outcome struct {
 	mism  []string // spec -> impl differences (predicted call / observables)
 	quies bool
 	dur   time.Duration
+	acc   bool // accepted by LeaseTrace.tla
 }
 
 func main() {
@@ -241,6 +242,10 @@ func main() {
 	core.Watchdog(150*time.Second, func(label string, since time.Duration) {
 		core.Infra("no progress for %s while %s", since, label)
 	})
+
+	repaired = probe()
+	rep.Extra["tree_compares_cluster_id_after_acquire"] = repaired
+	progress("probe: repaired=%v", repaired)
 
 	if args.Replay != "" {
 		replay(rep, args.Replay)
@@ -265,10 +270,6 @@ func main() {
 			stage{"renew_t", "MC_Lease_renew_t.cfg", cfgT{Cand: true, Local: "A", TTL: 2600}},
 			stage{"mute", "MC_Lease_mute.cfg", cfgT{Cand: true, Local: "A", TTL: 300, Mute: true}})
 	}
-
-	repaired = probe()
-	rep.Extra["tree_compares_cluster_id_after_acquire"] = repaired
-	progress("probe: repaired=%v", repaired)
 
 	// ---- 1. exhaustive model checking + script emission ----
 	var scripts []*script
